@@ -10,6 +10,9 @@ def parse(path):
     return out
 a = parse('/root/.vp/runs/1/log')          # long run, default 35-min cap, machine loaded by other runs, harness at commit ccc1f52
 b = parse('/tmp/thorough2.log')            # run with a 10-min cap per property, final harnesses
+import os
+if os.path.exists('/tmp/thorough3.log'):
+    b.update(parse('/tmp/thorough3.log'))   # C01, C05, C11, C15, C18 again after their thorough tiers were resized
 rows = ['| id | long run (35-min cap, loaded machine, earlier harness): jobs / exhausted / incomplete / refuted / paths / wall s | capped run (10-min cap, final harness): jobs / exhausted / incomplete / refuted / paths / wall s |', '|---|---|---|']
 for i in range(1, 21):
     k = 'C%02d' % i
